@@ -6,6 +6,7 @@ parsing), `Compress.XFlate.Reader` (C07), meta codec.
 -/
 import Compress.Proofs.XFlateStream
 import Compress.Proofs.XFlateWriterLatch
+import Compress.Proofs.XFlateGlue
 
 namespace Compress.Props.C05
 open Compress Compress.XFlate
@@ -40,5 +41,30 @@ theorem C05_data_accounted (crc : List UInt8 → Nat) (level chunk index : Int) 
     let s := (runW crc s0 ops).1
     s.bad = false → s.inOff = (dataOf s.zlog).length :=
   Compress.Proofs.XFlateStream.data_accounted crc level chunk index hasConf oracle ops s0 h0
+
+open Compress.Proofs.XFlateGlue in
+/-- **C05 (round trip).** For every accepted configuration, every Write/Flush(any mode) schedule
+    and a successful Close, under the compressor contract (every chunk the compressor emitted
+    between Reset and a flush is a run of complete non-final blocks that ends in the sync marker and
+    decodes to the chunk's data: `ZChunkOK`), the layout the writer's records describe over the
+    emitted bytes is well-formed for the written data; hence EVERY sequence of Seek and Read calls
+    on the reader model opened over the emitted bytes behaves like a ReadSeeker over the written
+    data (C07), and the end position equals the length of the data. Together with
+    `C05_index_roundtrip` (the reader's own parsing reconstructs exactly these records) this is the
+    round trip of the property. -/
+theorem C05_roundtrip (crc : List UInt8 → Nat) (level chunk index : Int) (hasConf : Bool)
+    (oracle : List ZEv) (ops : List WOp) (s0 : XWState)
+    (h0 : newWriter level chunk index hasConf {} oracle = some s0)
+    (hz : ∀ ev ∈ oracle, ev.err ≠ some .closed) (rops : List ROp) :
+    let s := (runW crc s0 ops).1
+    s.err = some .closed → s.bad = false →
+    (∀ c ∈ chunksOf s.zlog [] [], ZChunkOK c.1 c.2 ∧ 4 < c.1.length ∧
+        (c.1.reverse.take 4).reverse = [0x00, 0x00, 0xff, 0xff]) →
+    (∀ p ∈ s.zlog, p.1.kind = .zflush → p.1.emitted ≠ []) →
+    s.sink.got.length < 2 ^ 63 → (dataOf s.zlog).length < 2 ^ 63 →
+    let L := layoutOf s.sink.got s.allRecs
+    TraceOK (dataOf s.zlog) 0 rops (runOps .fixed L (opened .fixed L) rops) ∧
+    L.endRaw = ((dataOf s.zlog).length : Int) :=
+  Compress.Proofs.XFlateGlue.roundtrip crc level chunk index hasConf oracle ops s0 h0 hz rops
 
 end Compress.Props.C05
